@@ -120,9 +120,9 @@ def run(ctx):
                                  'integrate_path': FALSE, 'integrate_t_profile': FALSE, 'integrate_f_profile': FALSE,
                                  'doppler_smearing': FALSE}, no_inline=(FR + 'get_index',))
         tag = 'bounded' if bounded else 'unbounded'
-        ds = [e for e in I.events if e.kind == 'store' and e.data.get('target') == 'sub' and e.func.short == fi.short
+        ds = [e for e in I.events if e.kind == 'store' and e.data.get('target') == 'sub' and e.owner == fi.short
               and ast.unparse(e.data['base_node']) == 'self.data']
-        sf = [e for e in I.events if e.kind == 'store' and e.data.get('target') == 'sub' and e.func.short == fi.short
+        sf = [e for e in I.events if e.kind == 'store' and e.data.get('target') == 'sub' and e.owner == fi.short
               and isinstance(e.data['base_node'], ast.Name)]
         if not (len(ds) == 1 and len(sf) == 1):
             ctx.ob('AGREE', f'[{tag}] the data is updated by exactly one in-place addition into self.data[:, lo:hi] and the returned '
@@ -150,7 +150,7 @@ def run(ctx):
                 ctx.ob('RANGE', f'[{tag}] column slice {nm} lies in [0, fchans] (a negative bound would wrap around)', fi,
                        lower_ok(b) and upper_ok(b, F), {'bound': pretty(b), '>=0': lower_ok(b), '<=fchans': upper_ok(b, F)},
                        node=ds[0].node, construct=ds[0].text() + f' [{nm}]')
-            rf = [e for e in I.events if e.kind == 'call' and e.data.get('name') == 'numpy.meshgrid' and e.func.short == fi.short]
+            rf = [e for e in I.events if e.kind == 'call' and e.data.get('name') == 'numpy.meshgrid' and e.owner == fi.short]
             ctx.require(rf, 'add_signal: the frequency/time mesh (np.meshgrid) was not found')
             want = ctx.spec(fi, 'self.fs[LO:HI]', env={'LO': lo, 'HI': hi})
             ctx.formula('AGREE', f'[{tag}] the frequencies evaluated are those of the written columns', fi, rf[0].data['args'][0], want,
@@ -159,7 +159,7 @@ def run(ctx):
             r2, I2 = ctx.run(fi, args={'bounding_f_range': sym('BFR') if bounded else NONE, 'bp_profile': NONE,
                                        'integrate_path': FALSE, 'integrate_t_profile': FALSE, 'integrate_f_profile': TRUE,
                                        'doppler_smearing': FALSE}, no_inline=(FR + 'get_index',))
-            mg = [e for e in I2.events if e.kind == 'call' and e.data.get('name') == 'numpy.meshgrid' and e.func.short == fi.short]
+            mg = [e for e in I2.events if e.kind == 'call' and e.data.get('name') == 'numpy.meshgrid' and e.owner == fi.short]
             ctx.require(mg, 'add_signal: the frequency/time mesh (np.meshgrid) was not found')
             # (an empty range -- wholly outside the band -- has nothing to sub-sample and must not be indexed)
             want2 = ctx.spec(fi, 'ITE(len(self.fs[LO:HI]) > 0, np.linspace(self.fs[LO:HI][0], self.fs[LO:HI][0] + len(self.fs[LO:HI]) * self.df, '
